@@ -2053,14 +2053,29 @@ func (r *TypeClassSummonContext) _summonVar(tc metafp.TypeClassDerive) SummonExp
 		// 	return fmt.Sprintf("%s%s %s[%s] ", privateName(v.TypeClass.Name), p.Name, tcname, p.Name)
 		// }).MakeString(",")
 
-		fargs := seq.Map(mapExpr.paramInstance, as.Func3(ParamInstance.Expr).ApplyLast2(r.w, ctx.tc.Package)).MakeString(",")
+		// the instance parameters follow the declaration order of the type parameters: a call
+		// from inside a cycle (recursive type) cannot know the order of first use yet
+		params := fp.Seq[ParamInstance]{}
+		for _, tp := range tc.DeriveFor.Info.TypeParam {
+			for _, pi := range mapExpr.paramInstance {
+				if pi.ParamName == tp.Name {
+					params = append(params, pi)
+				}
+			}
+		}
+		for _, pi := range mapExpr.paramInstance {
+			if !params.Exists(func(o ParamInstance) bool { return EqParamInstance.Eqv(o, pi) }) {
+				params = append(params, pi)
+			}
+		}
+		fargs := seq.Map(params, as.Func3(ParamInstance.Expr).ApplyLast2(r.w, ctx.tc.Package)).MakeString(",")
 
 		return newSummonExpr(fmt.Sprintf(`
 						func %s%s( %s ) %s[%s%s] {
 							return %s
 						}
 					`, tc.GeneratedInstanceName(), valuetpdec, fargs, tcname, tc.DeriveFor.PackagedName(r.w, workingPackage), valuetp,
-			mapExpr), mapExpr.paramInstance)
+			mapExpr), params)
 
 	} else {
 		tcname := tc.TypeClass.PackagedName(r.w, workingPackage)
